@@ -17,7 +17,7 @@
 (*     globals; in every running state exactly one action of Src is enabled     *)
 (*     (determinism and progress); the dynamic type of every evaluated          *)
 (*     expression equals its static type; no execution gets stuck.              *)
-EXTENDS Src
+EXTENDS Src_Run
 
 CONSTANT NV          \* number of boundary values per type used for the laws (<= 13)
 VARIABLE lw          \* <<>> or a law instance [ta, tb, x, y]
@@ -187,10 +187,11 @@ TypesAgree == (Running /\ HasFuel /\ Len(K) > 0) =>
        LET r == Eval(StmtExprs[j], X0, S0) IN r.st = "ok" => r.v.ty = TypeOf(StmtExprs[j], X0, S0)
 
 (* ---- driver --------------------------------------------------------------------------- *)
-MInit == Init /\ lw = <<>>
+\* the micro programs run under Src_Run's driver, which also writes, per behaviour, the set of actions it took
+MInit == RInit /\ lw = <<>>
 PickLaw == /\ chunk = 0 /\ lw = <<>>
            /\ lw' \in [ta : IntTypes, tb : IntTypes, x : 1..NV, y : 1..NV]
            /\ chunk' = -1
-           /\ UNCHANGED <<i, av, stack, glob, calls, status, why, ret, steps>>
-MNext == (Next /\ UNCHANGED lw) \/ PickLaw
+           /\ UNCHANGED <<i, av, stack, glob, calls, status, why, ret, steps, done, acts>>
+MNext == (RNext /\ UNCHANGED lw) \/ PickLaw
 =============================================================================
